@@ -283,6 +283,7 @@ func (r *Reconciler) updateInstanceWithCurrentRS(logger logr.Logger, now time.Ti
 		// The canary strategy was removed while a canary was in progress: the canary is over, its
 		// nodes go back to the active replica set.
 		newDaemonset.Status.Canary = nil
+		newDaemonset.Status.Reason = ""
 		updateDaemonsetAnnotations = clearCanaryAnnotations(newDaemonset)
 	}
 
